@@ -428,6 +428,28 @@ def check(model, rep, tier):
             'TREE-TEXT', '%s:writes-source-verbatim' % lsf.site,
             'the module file must contain the source verbatim',
             {'writes': [core.norm(w) for w in wr]}, line=lsf.node.lineno)
+  # ... encoded as its first line declares (parser.unparse prefixes
+  # `# coding=utf-8`): the file object the text is written to is opened with that
+  # encoding, not with the locale's
+  openers = [c for c in ast.walk(lsf.node) if isinstance(c, ast.Call) and core.dotted(
+      c.func) in ('tempfile.NamedTemporaryFile', 'open', 'io.open', 'os.fdopen',
+                  'codecs.open', 'tempfile.TemporaryFile')]
+  enc = []
+  for c in openers:
+    kw_ = {k.arg: k.value for k in c.keywords}
+    e_ = kw_.get('encoding')
+    mode_ = kw_.get('mode') or (c.args[1] if len(c.args) > 1 and core.dotted(c.func) != \
+                                'tempfile.NamedTemporaryFile' else None)
+    binary = isinstance(mode_, ast.Constant) and 'b' in str(mode_.value)
+    enc.append((core.dotted(c.func), e_.value.lower().replace('_', '-') if isinstance(
+        e_, ast.Constant) and isinstance(e_.value, str) else ('binary' if binary else None)))
+  rep.check(bool(enc) and all(e in ('utf-8', 'utf8') for _, e in enc), 'TREE-TEXT',
+            '%s:written-as-utf-8' % lsf.site,
+            'the generated module declares `# coding=utf-8`; the file must be '
+            'written with that encoding, or the text the interpreter loads differs '
+            'from the text that was mapped (or cannot be written at all) under a '
+            'non-UTF-8 locale', {'openers': [(f_, str(e_)) for f_, e_ in enc]},
+            line=lsf.node.lineno, witness='a non-ASCII string literal, LC_ALL=C')
   up = model.func(PARSER, 'unparse')
   edits = []
   tainted = set()
